@@ -89,8 +89,28 @@ def ob_formula(timeout=30):
                 functions=[dict(function=f.ref, sha256_16=f.sha)], transparent=sorted(x.transparent), smt2=sol.to_smt2()[:800], kind='state')
 
 
+def ob_no_override(timeout=10):
+    """every library class inherits d (and n, k, logicals_x/z, size) from StabilizerCode: the formula obligation speaks about the code that runs"""
+    from contracts.lattices import CLASSES
+    from pyvc.source import get_class
+    base = get_class(SC, 'StabilizerCode')
+    problems, funcs = [], []
+    for name, (path, _) in CLASSES.items():
+        c = get_class(path, name)
+        for attr in ('d', 'n', 'k', 'logicals_x', 'logicals_z', 'size', 'stabilizer_matrix'):
+            f = c.lookup(attr)
+            if f is not base.methods[attr]:
+                problems.append('%s overrides %s' % (name, attr))
+        for attr in ('_d',):
+            if attr in c.attrs:
+                problems.append('%s presets %s' % (name, attr))
+    return dict(verdict='refuted' if problems else 'discharged', model=dict(overrides=problems) if problems else None, backend='pyvc-structural', seconds=0, kind='plain',
+                detail='; '.join(problems) or 'd, n, k, logicals_x/z, size, stabilizer_matrix are inherited unmodified by all %d classes' % len(CLASSES),
+                functions=[dict(function=base.methods['d'].ref, sha256_16=base.methods['d'].sha)], transparent=[])
+
+
 def obligations(tier):
-    return [Ob('C17.d.formula', ob_formula, {}, timeout=60, kind='state')]
+    return [Ob('C17.d.formula', ob_formula, {}, timeout=60, kind='state'), Ob('C17.d.inherited', ob_no_override, {}, timeout=30, backend='pyvc-structural')]
 
 
 # ------------------------------------------------------------------------------------------------ bounded: exact distance
@@ -150,7 +170,13 @@ def distance_job(a):
 
 
 def replay(r):
-    return dict(confirmed=None, detail='structural obligation')
+    # structural / formula obligation: look for a real code whose reported d is not the exact distance
+    for name, cls in all_code_classes():
+        for size in small_sizes(cls, name, 40, 5)[:12]:
+            a, n, d, why = distance_job((name, size))
+            if why and why != 'UNDECIDED':
+                return dict(confirmed=True, input=dict(code=name, size=list(size)), detail=why)
+    return dict(confirmed=None, detail='no real code with a wrong reported distance found among codes with n <= 40')
 
 
 def replay_file(data):
